@@ -40,7 +40,7 @@ REV_P = 11
 XSI_P = (4, 10)
 
 TB = [
-    "glibc strftime('%Y') without zero padding, CPython 3.12 _strptime regular expressions (ordered alternatives, IGNORECASE, Unicode digits), int()/str() of int incl. the 4300-digit limit, and lxml's refusal of non-XML characters are transcribed in model/CoreProps.v and tied by this correspondence only",
+    "re.match semantics of _w3cdtf_pattern / _offset_pattern (Unicode decimal digits for \\d, '$' also before one final newline), %04d/%02d formatting, int()/str() of int incl. the 4300-digit limit, OverflowError of datetime arithmetic outside years 1..9999, and lxml's refusal of non-XML characters are transcribed in model/CoreProps.v and tied by this correspondence only",
     "datetime + timedelta is modelled by lib/Calendar.v add_seconds (proved inverse of ordinal/civil arithmetic; compared with datetime.date.fromordinal/toordinal by this check)",
     "validity: valid_cp in model/CoreProps.v is a hand reading of opc-coreProperties.xsd (xsd:all of 15 children; cp:lastPrinted xsd:dateTime; dcterms:created/modified with xsi:type dcterms:W3CDTF = gYear|gYearMonth|date|dateTime), compared on every observed state with lxml.etree.XMLSchema (libxml2)",
     "nd_zeros in model/CoreProps.v is compared in full with unicodedata (category Nd) of the running interpreter",
@@ -329,7 +329,7 @@ def impl_cal(case):
 
 # ------------------------------------------------------------------ oracle
 UNK = object()
-W3C = re.compile(r"^(\d{4})(?:-(\d\d)(?:-(\d\d)(?:T(\d\d):(\d\d)(?::(\d\d)(?:\.(\d+))?)?(Z|[+-]\d\d:\d\d)?)?)?)?$", re.ASCII)
+W3C = re.compile(r"(\d{4})(?:-(\d\d)(?:-(\d\d)(?:T(\d\d):(\d\d)(?::(\d\d)(?:\.(\d+))?)?(Z|[+-]\d\d:\d\d)?)?)?)?", re.ASCII)
 
 
 def xml_chars(s):
@@ -339,7 +339,7 @@ def xml_chars(s):
 def w3cdtf_expected(text):
     """Independent reading of a W3CDTF string: (utc naive datetime, class) or None when the text
     is not W3CDTF / the UTC time is not representable."""
-    mt = W3C.match(text)
+    mt = W3C.fullmatch(text)
     if not mt:
         return None
     Y, Mo, D, h, mi, s, frac, tz = mt.groups()
@@ -416,7 +416,9 @@ def oracle(ck, case, trace):
                         try:
                             new = val.astimezone(dt.timezone.utc).replace(tzinfo=None, microsecond=0)
                         except OverflowError:
-                            new = UNK
+                            # no UTC wall clock within years 1..9999: outside the statement
+                            want_err = None
+                            new = prev[p] if tr["res"] != "ok:" else UNK
                         sig_mismatch = "date-tzaware" if val.utcoffset() else ("date-year-lt-1000" if val.year < 1000 else "date-roundtrip")
                         if val.year < 1000 and val.utcoffset():
                             new = UNK  # two causes at once: leave to the single-cause cases
@@ -638,6 +640,11 @@ MALFORMED_DATES = [
     "2003-12-31T10:14:55+0a:00", "2003-12-31T10:14:55+08:0a", "2003-12-31T23:59:59-14:00", "2003-12-31T23:59:59+14:00",
     "1e3", "2003-W01", "2003-001", "2003-12-31T", "2003-12-31T10", "2003-12-3", "2003-12-31T10:14:55.", "３００３",
     "2003-1２", "2003-12-31T2４:00:00", "2003-12-31T10:14:6\u0660",
+    "2003\n", "2003-12\n", "2003-12-31\n", "2003-12-31T10:14:55Z\n", "2003-12-31T10:14:55+01:00\n", "2003\n\n", "\n2003", "2003-12-31T10:14\n",
+    "2003-12-31T10:14:55.Z", "2003-12-31T10:14.5Z", "2003-12-31T10Z", "2003-12-31T10:14:55.5", "2003-12-31T10:14:55.5\n", "2003-12-31T10:14Z",
+    "2003-12-31T10:14:55.٥+01:00", "2003-12-31T10:14:55+1:00", "2003-12-31T10:14:55Z+01:00", "2003-12-31T10:14:55+01:00Z", "2003-12-31T10:14:55.5.5Z",
+    "2003-12-31T10:14:", "2003-12-31T10:14:5", "2003-12-31T10:14:55:00", "2003-12T10:14", "2003T10:14", "2003-12-31T23:60", "2003-12-31T10:14-14:00",
+    "0001-01-01T00:00+00:01", "9999-12-31T23:59-00:01", "2003-12-31T10:14:55.123456789012345678901234567890+14:00",
 ]
 REV_TEXTS = ["", " 7 ", "+7", "-3", "1_0", "\u0663", "7.0", "0x1", "0", "007", "_1", "1_", "1__0", "+ 1", "- 1", "+-1", " +1 ",
              "\u20031", "1\u00a0", "0_7", "00", "-0", "+", "-", " ", "1 2", "\u0661\u0662", "1\u0662", "1\t", "\u0663_\u0663",
@@ -724,6 +731,11 @@ def gen_cases(tier, rng):
         for p in DATE_P:
             for aware in (False, True) if y in (999, 1000, 2020, 9999) else (False,):
                 cases.append(mk([("set", p, rand_dt(rng, y, aware)), ("reopen",), ("access",)], "date-grid"))
+    for v in [("dt", 1, 1, 1, 0, 0, 0, 0, 60), ("dt", 1, 1, 1, 0, 0, 59, 999999, 60), ("dt", 1, 1, 1, 0, 1, 0, 0, 60), ("dt", 1, 1, 1, 13, 59, 59, 0, 50400),
+              ("dt", 9999, 12, 31, 23, 59, 59, 999999, -1), ("dt", 9999, 12, 31, 23, 59, 58, 0, -1), ("dt", 9999, 12, 31, 12, 0, 0, 0, -43200),
+              ("dt", 9999, 12, 31, 11, 59, 59, 0, -43200), ("dt", 1, 1, 1, 0, 0, 0, 0, -60), ("dt", 9999, 12, 31, 23, 59, 59, 0, 86399)]:
+        for p in DATE_P:
+            cases.append(mk([("set", p, ("dt", 2001, 2, 3, 4, 5, 6, 7, None)), ("set", p, v), ("reopen",)], "date-aware-edge"))
     for _ in range(150 if quick else 3000):
         p = rng.choice(DATE_P)
         cases.append(mk([("set", p, rand_dt(rng))] + ([("reopen",)] if rng.random() < 0.3 else []), "date-random"))
@@ -973,3 +985,11 @@ def replay(rec):
         print("op", j, "impl ", b[:400])
         print("op", j, "model", a[:400])
     return 0 if mask_validity(case, mo) == mask_validity(case, io_) else 1
+
+
+CLAIM = {
+    "tech": "Coq proof over a Gallina model of the core-properties setters/getters (all strings, all datetimes, all W3CDTF granularities x zone designators, all states and assignment histories) + proved proleptic-Gregorian calendar arithmetic + extracted-model correspondence on real packages incl. save/re-open + independent oracle with XMLSchema validation",
+    "text": "17 theorems closed under the global context over model/CoreProps.v and lib/Calendar.v: strings of <= 255 XML characters round-trip and longer ones raise ValueError leaving the element untouched; naive datetimes of every year 1..9999 round-trip to the second and aware ones read back as the UTC wall clock with instant local - utcoffset; minute / second / fractional-second timestamps with nothing, Z or any signed hh:mm designator read as the equivalent UTC time (date, year-month, year forms too); positive ints round-trip as revision, bool/non-int/<1 raise ValueError; assigning one property never changes the other 14 readings and after any fold of assignments each property reads its last accepted value; every assignment keeps the element valid against opc-coreProperties.xsd (xsd:all of 15 children, xsd:dateTime / W3CDTF lexical forms); a missing part is created with the documented defaults; civil_of_ordinal and ordinal are mutually inverse on all of Z. The model is tied to oxml/coreprops.py, parts/coreprops.py and Package.core_properties by running ~6.9k (quick) / ~120k (thorough) operations in histories on real presentations and on the extracted model, comparing every reading, the children of cp:coreProperties and schema validity after each step; six regression signatures (year < 1000, aware datetimes, revision = True, minute granularity, fraction with offset, fraction with Z) stay armed in the oracle.",
+    "note": "save/re-open is the identity on the model state and is exercised at run time (1-3 cycles); dc.xsd/dcterms.xsd are not in the repository, the XMLSchema oracle uses minimal local stand-ins; re/int()/%-formatting/lxml behaviour is transcribed and tied by correspondence, not proved about CPython; outside the statement and on record: a timestamp whose UTC time leaves years 1..9999 raises OverflowError (on read and on assigning an aware value), text with a non-XML code point raises ValueError after erasing the previous value, ints of more than 4300 digits hit CPython's conversion limit, a final newline and non-ASCII decimal digits are tolerated by the reader.",
+    "ref": "6/C18",
+}
